@@ -8,10 +8,6 @@ package interp
 // external or because they use "unsafe" or "reflect" operations.
 
 import (
-	"fmt"
-	"go/token"
-	"golang.org/x/tools/go/ssa"
-	"go/types"
 	"bytes"
 	"math"
 	"os"
@@ -342,268 +338,3 @@ func ext۰fmt۰Sprint(fr *frame, args []value) value {
 	}
 	return buf.String()
 }
-
-func init() {
-	externals["fmt.Sprintf"] = func(fr *frame, args []value) value {
-		format := args[0].(string)
-		av := args[1].([]value)
-		var parts []value
-		lit := ""
-		ai := 0
-		for i := 0; i < len(format); i++ {
-			if format[i] != '%' || i+1 >= len(format) {
-				lit += string(format[i])
-				continue
-			}
-			i++
-			if format[i] == '%' {
-				lit += "%"
-				continue
-			}
-			var a value = "<missing>"
-			if ai < len(av) {
-				a = av[ai]
-				ai++
-			}
-			if itf, ok := a.(iface); ok {
-				a = itf.v
-			}
-			if sv, ok := a.(symv); ok {
-				if lit != "" {
-					parts = append(parts, lit)
-					lit = ""
-				}
-				if sv.sort == 'I' {
-					sv = symv{'S', "(str.from_int " + sv.term + ")"}
-				}
-				parts = append(parts, sv)
-			} else {
-				lit += toString(a)
-			}
-		}
-		if lit != "" || len(parts) == 0 {
-			parts = append(parts, lit)
-		}
-		if len(parts) == 1 {
-			return parts[0]
-		}
-		t := "(str.++"
-		for _, p := range parts {
-			pt, _, _ := termOf(p)
-			t += " " + pt
-		}
-		return symv{'S', t + ")"}
-	}
-	externals["errors.New"] = func(fr *frame, args []value) value {
-		return iface{t: fr.i.runtimeErrorString, v: "errors.New:" + args[0].(string)}
-	}
-	externals["fmt.Errorf"] = func(fr *frame, args []value) value {
-		return iface{t: fr.i.runtimeErrorString, v: "fmt.Errorf:" + args[0].(string)}
-	}
-}
-
-func init() {
-	externals["k8s.io/apimachinery/pkg/runtime.NewScheme"] = func(fr *frame, args []value) value { return (*value)(nil) }
-	InitAllow = []string{"zzprobe", "metacontroller/pkg/controller/common", "metacontroller/pkg/dynamic/apply", "metacontroller/pkg/apis/metacontroller/v1alpha1"}
-}
-
-func init() {
-	nop := func(fr *frame, args []value) value { return nil }
-	for _, n := range []string{"(*sync.RWMutex).Lock", "(*sync.RWMutex).Unlock", "(*sync.RWMutex).RLock", "(*sync.RWMutex).RUnlock", "(*sync.Mutex).Lock", "(*sync.Mutex).Unlock"} {
-		externals[n] = nop
-	}
-}
-
-var jsonTab = map[string]value{}
-
-func deepCopyVal(v value) value {
-	switch x := v.(type) {
-	case *hashmap:
-		if x == nil {
-			return x
-		}
-		m := &hashmap{keyType: x.keyType}
-		for _, e := range x.ents {
-			m.ents = append(m.ents, &entry{e.key, deepCopyVal(e.value)})
-		}
-		return m
-	case map[value]value:
-		m := make(map[value]value, len(x))
-		for k, e := range x {
-			m[k] = deepCopyVal(e)
-		}
-		return m
-	case []value:
-		s := make([]value, len(x))
-		for i, e := range x {
-			s[i] = deepCopyVal(e)
-		}
-		return s
-	case iface:
-		return iface{t: x.t, v: deepCopyVal(x.v)}
-	}
-	return v
-}
-
-func init() {
-	externals["k8s.io/apimachinery/pkg/util/json.Marshal"] = func(fr *frame, args []value) value {
-		tok := "JSON#" + strconv.Itoa(len(jsonTab))
-		jsonTab[tok] = deepCopyVal(args[0])
-		var bs []value
-		for _, b := range []byte(tok) {
-			bs = append(bs, b)
-		}
-		return tuple{bs, iface{}}
-	}
-	externals["k8s.io/apimachinery/pkg/util/json.Unmarshal"] = func(fr *frame, args []value) value {
-		var bb []byte
-		for _, b := range args[0].([]value) {
-			bb = append(bb, b.(byte))
-		}
-		v, ok := jsonTab[string(bb)]
-		if !ok {
-			return iface{t: fr.i.runtimeErrorString, v: "bad json"}
-		}
-		ptr := args[1].(iface).v.(*value)
-		*ptr = deepCopyVal(v.(iface).v)
-		return iface{}
-	}
-}
-
-func deepEq(a, b value) value {
-	switch x := a.(type) {
-	case *hashmap:
-		y, ok := b.(*hashmap)
-		if !ok || x.len() != y.len() || (x == nil) != (y == nil) {
-			return false
-		}
-		var acc value = true
-		for _, e := range x.ents {
-			f := y.lookup(e.key)
-			if f == nil {
-				return false
-			}
-			acc = andv(acc, deepEq(e.value, f))
-			if acc == false {
-				return false
-			}
-		}
-		return acc
-	case []value:
-		y, ok := b.([]value)
-		if !ok || len(x) != len(y) || (x == nil) != (y == nil) {
-			return false
-		}
-		var acc value = true
-		for i := range x {
-			acc = andv(acc, deepEq(x[i], y[i]))
-			if acc == false {
-				return false
-			}
-		}
-		return acc
-	case iface:
-		y, ok := b.(iface)
-		if !ok {
-			return false
-		}
-		if x.t == nil || y.t == nil {
-			return x.t == nil && y.t == nil
-		}
-		if !types.Identical(x.t, y.t) {
-			return false
-		}
-		return deepEq(x.v, y.v)
-	case *value:
-		y, ok := b.(*value)
-		if !ok {
-			return false
-		}
-		if x == nil || y == nil {
-			return x == y
-		}
-		return deepEq(*x, *y)
-	case structure:
-		y := b.(structure)
-		var acc value = true
-		for i := range x {
-			acc = andv(acc, deepEq(x[i], y[i]))
-		}
-		return acc
-	}
-	if isSym(a) || isSym(b) {
-		return eqv(nil, a, b)
-	}
-	return a == b
-}
-
-func init() {
-	externals["reflect.DeepEqual"] = func(fr *frame, args []value) value { return deepEq(args[0], args[1]) }
-}
-
-// ---- rt intrinsics + driver (prototype) ----
-
-func init() {
-	externals["metacontroller/pkg/zzrt.String"] = func(fr *frame, args []value) value { return EX.fresh('S', "s") }
-	externals["metacontroller/pkg/zzrt.Bool"] = func(fr *frame, args []value) value { return EX.fresh('B', "b") }
-	externals["metacontroller/pkg/zzrt.Int"] = func(fr *frame, args []value) value { return EX.fresh('I', "i") }
-	externals["metacontroller/pkg/zzrt.Assume"] = func(fr *frame, args []value) value { EX.assume(args[0]); return nil }
-	externals["metacontroller/pkg/zzrt.Assert"] = func(fr *frame, args []value) value {
-		EX.assert(args[0], args[1].(string))
-		return nil
-	}
-}
-
-// Explore runs fn (a niladic function in mainpkg) over all feasible paths.
-func Explore(mainpkg *ssa.Package, fnName string, sizes types.Sizes, solver *Solver, maxPaths int) *Explorer {
-	ex := &Explorer{S: solver, Work: [][]bool{nil}}
-	EX = ex
-	for len(ex.Work) > 0 && ex.Paths < maxPaths {
-		pre := ex.Work[len(ex.Work)-1]
-		ex.Work = ex.Work[:len(ex.Work)-1]
-		ex.prefix, ex.pos, ex.pc, ex.decls, ex.nsym = pre, 0, nil, nil, 0
-		ex.Paths++
-		runOne(mainpkg, fnName, sizes)
-	}
-	return ex
-}
-
-func runOne(mainpkg *ssa.Package, fnName string, sizes types.Sizes) {
-	i := &interpreter{
-		prog:       mainpkg.Prog,
-		globals:    make(map[*ssa.Global]*value),
-		sizes:      sizes,
-		goroutines: 1,
-		mode:       TraceMode,
-	}
-	runtimePkg := i.prog.ImportedPackage("runtime")
-	i.runtimeErrorString = runtimePkg.Type("errorString").Object().Type()
-	initReflect(i)
-	for _, pkg := range i.prog.AllPackages() {
-		for _, m := range pkg.Members {
-			if v, ok := m.(*ssa.Global); ok {
-				cell := zero(mustDeref(v.Type()))
-				i.globals[v] = &cell
-			}
-		}
-	}
-	defer func() {
-		if r := recover(); r != nil {
-			switch p := r.(type) {
-			case pathAbort:
-				return
-			case targetPanic:
-				EX.Viol = append(EX.Viol, "target panic: "+toString(p.v))
-			default:
-				EX.Viol = append(EX.Viol, fmt.Sprintf("engine panic: %v", r))
-				if len(EX.Viol) < 3 {
-					println(fmt.Sprintf("ENGINE PANIC %v\n%s", r, StackString()))
-				}
-			}
-		}
-	}()
-	call(i, nil, token.NoPos, mainpkg.Func("init"), nil)
-	call(i, nil, token.NoPos, mainpkg.Func(fnName), nil)
-}
-
-var TraceMode Mode
